@@ -233,6 +233,15 @@ func (g *gen) handler(form string) *Handler {
 
 func pick[T any](rng *rand.Rand, xs []T) T { return xs[rng.Intn(len(xs))] }
 
+// helperRecv: the typed helpers are methods of the handler's receiver, of a package-level value,
+// or (from the main package) of a value of the imported controller type
+func (g *gen) helperRecv(h *Handler, recv string) string {
+	if !h.Inner && g.chance(0.3) {
+		return "innerHelper"
+	}
+	return recv
+}
+
 // renderBody writes the statements of a handler; c = context variable, recv = receiver of the typed helpers.
 func (g *gen) renderBody(h *Handler, c, recv string) string {
 	var b strings.Builder
@@ -248,9 +257,9 @@ func (g *gen) renderBody(h *Handler, c, recv string) string {
 		case "query":
 			return fmt.Sprintf("%s.QueryParam(%s)", c, lit(it.Name))
 		case "queryBool":
-			return fmt.Sprintf("%s.QueryParamBool(%s, %s)", recv, c, lit(it.Name))
+			return fmt.Sprintf("%s.QueryParamBool(%s, %s)", g.helperRecv(h, recv), c, lit(it.Name))
 		case "queryInt64":
-			return fmt.Sprintf("%s.QueryParamInt64(%s, %s)", recv, c, lit(it.Name))
+			return fmt.Sprintf("%s.QueryParamInt64(%s, %s)", g.helperRecv(h, recv), c, lit(it.Name))
 		case "formValue":
 			return fmt.Sprintf("%s.FormValue(%s)", c, lit(it.Name))
 		}
@@ -483,6 +492,8 @@ type controller struct{}
 type controllerV struct{}
 
 var helper controllerV
+
+var innerHelper inner.Controller
 
 type Archived bool
 
